@@ -19,11 +19,12 @@ Paths use fpy2.analysis.alias' part keys: None for "the elements of a list", an 
 from __future__ import annotations
 
 import ast as pyast
+from fractions import Fraction
 
 from fpy2.ast.fpyast import Call, ContextStmt, IndexedAssign, ListComp, Var
 from fpy2.function import Function
 from fpy2.interpret.value import from_value, to_value
-from fpy2.number import Context
+from fpy2.number import Context, Float
 from fpy2.utils import NamedId
 
 from vlib.trace import MAX_OBS, Recorder, TracingCompiler, TracingInterpreter, _target_names
@@ -70,6 +71,24 @@ def _lists_in(value, out):
             _lists_in(x, out)
 
 
+MAX_BITS = 1 << 16
+
+
+class ValueTooLarge(Exception):
+    """A run is abandoned (skipped, counted) once a number outgrows MAX_BITS bits of significand or exponent
+    range: exact arithmetic in a loop doubles the size of a product each trip, and a single multiplication of
+    gigabyte integers cannot be interrupted.  Runs are bounded by size, never by time."""
+
+
+def _check_size(v):
+    if isinstance(v, Float):
+        if v.c.bit_length() > MAX_BITS or abs(v.exp) > MAX_BITS:
+            raise ValueTooLarge()
+    elif isinstance(v, Fraction):
+        if v.numerator.bit_length() > MAX_BITS or v.denominator.bit_length() > MAX_BITS:
+            raise ValueTooLarge()
+
+
 class Recorder13(Recorder):
     def __init__(self, func):
         super().__init__(func)
@@ -86,6 +105,7 @@ class Recorder13(Recorder):
         self.n_reads.clear()
 
     def on_expr(self, idx, value):
+        _check_size(value)
         c = self.expr_count.get(idx, 0)
         self.expr_count[idx] = c + 1
         if c < MAX_OBS:
